@@ -44,7 +44,8 @@ CTX = {"jit": "LJit", "scan": "LScan", "while": "LWhile", "fori": "LFori", "cond
        "grad": "LGrad", "value_and_grad": "LValueAndGrad", "vmap": "LVmap", "seed_while": "LSeedWhile",
        "seed_jit": "LSeedJit", "seed_fori": "LSeedFori", "seed_ok": "LSeedOk", "seed_scan_while": "LSeedScanWhile",
        "jit_det": "LJitDet", "seed_remat": "LSeedEagerHO", "seed_custom_jvp": "LSeedEagerHO", "seed_custom_vjp": "LSeedEagerHO",
-       "seed_remat_jit": "LSeedEagerHO", "jit_adev": "LJit", "seed_ok_adev": "LSeedOk", "seed_scan_adev": "LSeedOk"}
+       "seed_remat_jit": "LSeedEagerHO", "seed_remat_remat": "LSeedEagerHO2", "seed_remat_custom_jvp": "LSeedEagerHO2",
+       "seed_custom_jvp_remat": "LSeedEagerHO2", "jit_adev": "LJit", "seed_ok_adev": "LSeedOk", "seed_scan_adev": "LSeedOk"}
 
 
 def scase(c):
@@ -77,7 +78,8 @@ def run(ctx):
         if pr.returncode != 0 or not os.path.exists(out):
             worker_errs.append(se[-1500:])
             continue
-        cases.extend(c for c in json.load(open(out)) if c["kind"] in WANT[ctx.pid])
+        cases.extend(c for c in json.load(open(out)) if c["kind"] in WANT[ctx.pid]
+                     or (ctx.pid == "C06" and c["kind"] == "lower" and CTX.get(c["ctx"], "").startswith("LSeedEagerHO")))
     vf = os.path.join(ctx.scratch, f"cases_seed_{ctx.pid}.v")
     open(vf, "w").write("From Coq Require Import List. Import ListNotations.\nFrom GV Require Import Model.Seed Model.CorrSeed.\n"
                         "Definition cases : list scase := [\n" + ";\n".join("  " + scase(c) for c in cases)
@@ -91,7 +93,7 @@ def run(ctx):
     if ctx.pid == "C14":
         nt = len({(c["ctx"], c["depth"]) for c in cases})
     else:
-        nt = len({json.dumps([c["block"], c["cs"]]) for c in cases if "err" not in c and sites(c["block"]) >= 2})
+        nt = len({json.dumps([c["block"], c["cs"]]) for c in cases if c["kind"] == "seed" and "err" not in c and sites(c["block"]) >= 2})
     return {"cases": cases, "bad": bad, "worker_errs": worker_errs, "coq_errs": [res["error"]] if "error" in res else [],
             "coverage": {"evaluations": len(cases), "distinct_nontrivial": nt,
                          "rule": "seed: random probabilistic JAX functions (sequences of key-echo sample sites and deterministic ops, lax.cond with straight-line branches, "
@@ -100,7 +102,7 @@ def run(ctx):
                                  "term of the key algebra (BFS over real threefry split/fold_in) and must equal the model's term list; also a persistent sampler object under different keyword parameterisations and parameter shapes, a sampler closing over an array constant, and a vectorised call (modular_vmap with axis_size, site parameters unbatched or mixed, passed positionally or by keyword) "
                                  "run eagerly, with keyword arguments, from a second identical definition, under jit and vmap over keys, with unseeded and seeded re-vectorisations of the same callee in between "
                                  "(every lane must report the site key, shape (lanes,2)); non-trivial = distinct program with >=2 site instances. "
-                                 "lower: a site (plain, with its own sample_shape, vectorised by axis_size, vectorised with its parameter passed by keyword) at nesting depth 1-2 placed in jit/scan/while/fori/cond/nested jit/grad/value_and_grad/vmap and seed+while/jit/fori/scan-of-while/checkpoint/custom_jvp/custom_vjp (eager and under jit); "
+                                 "lower: a site (plain, with its own sample_shape, vectorised by axis_size, vectorised with its parameter passed by keyword) at nesting depth 1-2 placed in jit/scan/while/fori/cond/nested jit/grad/value_and_grad/vmap and seed+while/jit/fori/scan-of-while/checkpoint/custom_jvp/custom_vjp (eager and under jit; also two such wrappers deep); "
                                  "outcome class compared with the model (code) and with the property (spec); non-trivial = distinct (context, depth)",
                          "histogram": {"kinds": Counter(c["kind"] for c in cases),
                                        "lower_outcomes": Counter((c.get("ctx"), c.get("raised")) .__str__() for c in cases if c["kind"] == "lower"),
